@@ -155,7 +155,9 @@ Definition from_feature (f : feat) (height : Z) : area :=
   | None => mkArea (fkind f) (fstart f) (fend f) (fstart f) (fend f) height 0 (fprod f) (ftool f)
   end.
 
-Definition area_crosses (a : area) : bool := a_ne a <? a_ns a.
+(* Area.crosses_origin: neighbouring_start >= neighbouring_end (an area is never empty: equal coordinates are an
+   area covering the whole ring; repair of finding area_assert_cross_origin, F34b) *)
+Definition area_crosses (a : area) : bool := a_ne a <=? a_ns a.
 
 Definition set_start (a : area) (v : Z) := mkArea (a_kind a) v (a_end a) (a_ns a) (a_ne a) (a_height a) (a_group a) (a_prod a) (a_tool a).
 Definition set_end (a : area) (v : Z) := mkArea (a_kind a) (a_start a) v (a_ns a) (a_ne a) (a_height a) (a_group a) (a_prod a) (a_tool a).
@@ -191,7 +193,7 @@ Definition adjust_cross_origin_area (a : area) (f : feat) (region_crosses : bool
   | Some core =>
     let cs := loc_fstart core in
     let ce := loc_fend core in
-    if ce <? cs then
+    if ce <=? cs then   (* if feature.core_start >= feature.core_end *)
       if region_crosses then
         Ok (set_ne (set_end a (a_end a + length)) (a_ne a + length), None)
       else
@@ -271,23 +273,31 @@ Record orf := mkOrf { o_start : Z; o_end : Z; o_strand : Z; o_group : Z }.
 
 Definition strand_or_1 (st : Z) : Z := if (st =? S_None) || (st =? 0) then 1 else st.
 
+(* convert_cds_features, coordinate fields.  start/end: Feature.start + 1 / Feature.end; in an origin-crossing
+   region each of the two is shifted by the record length when it lies after the origin, i.e. before
+   region.start (`feature.start < region.start`, `feature.end <= region.start`, the end being exclusive).
+   region_start / region_end: the ends of the region as drawn (region.start + 1, region.end [+ len(record)]).
+   The gene is emitted as two linked halves, each reaching an end of the region, when it crosses the origin in a
+   region that does not, or when start > end (it leaves the region at one end and returns at the other)
+   (repairs of the findings gene_across_region_gap, F45, and gene_long_way_round, C19-K3) *)
 Fixpoint convert_cds_features (rloc : loc) (n : Z) (groups : Z) (genes : list loc) : list orf :=
   match genes with
   | [] => []
   | g :: more =>
     let start := loc_fstart g + 1 in
     let end_ := loc_fend g in
+    let region_start := loc_fstart rloc + 1 in
+    let region_end := if bridges rloc then loc_fend rloc + n else loc_fend rloc in
     let '(start, end_) :=
       if bridges rloc then
-        if contains [last_part rloc] g then (start + n, end_ + n)
-        else if bridges g then (start, end_ + n)
-        else (start, end_)
+        (if loc_fstart g <? loc_fstart rloc then start + n else start,
+         if loc_fend g <=? loc_fstart rloc then end_ + n else end_)
       else (start, end_) in
     let st := strand_or_1 (lstrand g) in
-    if bridges g && negb (bridges rloc) then
+    if (bridges g && negb (bridges rloc)) || (end_ <? start) then
       let grp := groups + 1 in
-      let original := mkOrf start n (if lstrand g =? -1 then st else 0) grp in
-      let extra := mkOrf 1 end_ (if lstrand g =? -1 then 0 else st) grp in
+      let original := mkOrf start region_end (if lstrand g =? -1 then st else 0) grp in
+      let extra := mkOrf region_start end_ (if lstrand g =? -1 then 0 else st) grp in
       original :: extra :: convert_cds_features rloc n grp more
     else mkOrf start end_ st 0 :: convert_cds_features rloc n groups more
   end.
@@ -432,24 +442,6 @@ Definition spec_orfs (se : Z * Z) (wrapped : bool) (orfs : list orf) : bool :=
 Definition start_part (l : loc) : part := if lstrand l =? -1 then last_part l else first_part l.
 Definition end_part (l : loc) : part := if lstrand l =? -1 then first_part l else last_part l.
 
-(* guard of the gene clause (finding gene_across_region_gap): the gene does not straddle the gap that an
-   origin-crossing region leaves on the ring - a gene that does not cross the origin lies in one of the two
-   parts of the region, a gene that does has its first exon before and its last exon after the origin *)
-Definition gene_guard (rloc g : loc) : bool :=
-  negb (bridges rloc) ||
-  (if bridges g then contains [first_part rloc] [start_part g] && contains [last_part rloc] [end_part g]
-   else contains [first_part rloc] g || contains [last_part rloc] g).
-
-(* finding class: some gene has exons on both sides of the gap (its introns cover the gap) *)
-Definition class_gene_gap (rloc : loc) (genes : list loc) : bool :=
-  existsb (fun g => negb (gene_guard rloc g)) genes.
-
-(* finding class gene_long_way_round: a gene that "crosses the origin" by the order of its exons inside a
-   region that neither crosses the origin nor covers the whole record (no exon can touch the origin there: the
-   gene runs the long way round the ring); it is split at the record ends, outside the region *)
-Definition class_gene_long_way (rloc : loc) (n : Z) (genes : list loc) : bool :=
-  negb (bridges rloc) && negb ((lstart rloc =? 0) && (lend rloc =? n)) && existsb bridges genes.
-
 (* ---------- encoding ---------- *)
 Definition dFeat : dec feat := fun l =>
   match l with
@@ -537,13 +529,12 @@ Definition run_C19 (fn : Z) (l : list Z) : list Z :=
     match dPair dRegion (dList dLoc) l with
     | Some ((n, circ, rloc, subs, cands, members, order, genes), out) =>
       match dResHead out with
-      | Some (Some _, []) => [1; 1; 1; 1; 1; 1; 1; 1; 1; 0; 0]
+      | Some (Some _, []) => [1; 1; 1; 1; 1; 1; 1; 1; 1]
       | Some (None, s :: e :: r) =>
         match dPair (dList dOrf) (dList dArea) r with
         | Some ((orfs, areas), []) =>
           spec_areas rloc n circ subs cands members areas
-          ++ eBool (spec_orfs (s, e) (bridges rloc) orfs) ++ eBool (class_gene_gap rloc genes)
-          ++ eBool (class_gene_long_way rloc n genes)
+          ++ eBool (spec_orfs (s, e) (bridges rloc) orfs)
         | _ => bad_input end
       | _ => bad_input end
     | _ => bad_input end
